@@ -396,9 +396,13 @@ pub fn check_proofs<H: HK>(
             ),
         ));
     }
+    let mut produced: Vec<(Key, nomt_core::proof::PathProof)> = Vec::new();
     for q in queries {
         let p = crate::driver::guard("Session::prove", || sess.prove(*q))
             .map_err(|f| viol(step, f.sig()))?;
+        if shape {
+            produced.push((*q, p.clone()));
+        }
         let pi = observe::check_proof::<H>(&p, q, view, root).map_err(|m| viol(step, m))?;
         if shape {
             observe::check_proof_shape::<H>(&p, q, view).map_err(|m| viol(step, m))?;
@@ -416,6 +420,70 @@ pub fn check_proofs<H: HK>(
         }
         info.max("max_proof_depth", pi.siblings as u64);
     }
+    if produced.len() >= 2 {
+        multiproof_tier::<H>(produced, view, root, step, info)?;
+    }
+    Ok(())
+}
+
+/// C07 on store-produced proofs: the path proofs the store handed out for distinct terminals are
+/// aggregated into a multi-proof, which must verify against the same root and answer every query
+/// exactly as the individual (already judged) path proofs / the model do.
+fn multiproof_tier<H: HK>(
+    mut produced: Vec<(Key, nomt_core::proof::PathProof)>,
+    view: &Map,
+    root: [u8; 32],
+    step: usize,
+    info: &mut CaseInfo,
+) -> Result<(), Violation> {
+    use bitvec::prelude::*;
+    use nomt_core::proof::{verify_multi_proof, MultiProof};
+    use nomt_core::trie::LeafData;
+    produced.sort_by(|a, b| a.0.cmp(&b.0));
+    // one proof per terminal: a later query whose key shares the previous proof's terminal path is dropped
+    let mut chosen: Vec<(Key, nomt_core::proof::PathProof)> = Vec::new();
+    let mut all_queries: Vec<Key> = Vec::new();
+    for (q, p) in produced {
+        all_queries.push(q);
+        let depth = p.siblings.len();
+        let same_terminal = chosen.last().map_or(false, |(pq, pp)| {
+            let d = pp.siblings.len();
+            d <= 256 && pq.view_bits::<Msb0>()[..d.min(256)] == q.view_bits::<Msb0>()[..d.min(256)]
+        });
+        let _ = depth;
+        if !same_terminal {
+            chosen.push((q, p));
+        }
+    }
+    if chosen.len() < 2 {
+        return Ok(());
+    }
+    let proofs: Vec<nomt_core::proof::PathProof> = chosen.iter().map(|(_, p)| p.clone()).collect();
+    let n_paths = proofs.len();
+    let mp = crate::driver::guard("MultiProof::from_path_proofs", || Ok(MultiProof::from_path_proofs(proofs))).map_err(|f| viol(step, f.sig()))?;
+    let vm = crate::driver::guard("verify_multi_proof", || Ok(verify_multi_proof::<H::N>(&mp, root)))
+        .map_err(|f| viol(step, f.sig()))?
+        .map_err(|e| viol(step, format!("the multi-proof aggregated from {n_paths} store-produced path proofs does not verify against the session root: {e:?}")))?;
+    for q in &all_queries {
+        match view.get(q) {
+            Some(v) => {
+                let r = vm.confirm_value(&LeafData { key_path: *q, value_hash: v.vh });
+                if r.ok() != Some(true) {
+                    return Err(viol(step, format!("multi-proof of store-produced proofs does not confirm the value of present key {} (the path proof does)", hx8(q))));
+                }
+                if vm.confirm_nonexistence(q).ok() != Some(false) {
+                    return Err(viol(step, format!("multi-proof of store-produced proofs does not deny non-existence of present key {}", hx8(q))));
+                }
+            }
+            None => {
+                if vm.confirm_nonexistence(q).ok() != Some(true) {
+                    return Err(viol(step, format!("multi-proof of store-produced proofs does not confirm non-existence of absent key {} (the path proof does)", hx8(q))));
+                }
+            }
+        }
+    }
+    info.bump("multiproofs_of_store_proofs");
+    info.add("multiproof_paths", n_paths as u64);
     Ok(())
 }
 
